@@ -172,3 +172,9 @@ MUTANTS += [
          edits=[('bmtree/index.go', 'p2 = (p2 >> 1) | idxToPath[mask&15][index]', 'p2 = (p2 >> 1) | idxTable()[mask&15][index]'),
                 ('bmtree/index.go', '', '\nvar (\n\tlazyIdx      [][]uint64\n\tlazyIdxReady bool\n)\n\nfunc idxTable() [][]uint64 {\n\tif !lazyIdxReady {\n\t\tlazyIdxReady = true\n\t\tt := make([][]uint64, len(idxToPath))\n\t\tlazyIdx = t\n\t\tfor i := range idxToPath {\n\t\t\tt[i] = append([]uint64(nil), idxToPath[i]...)\n\t\t}\n\t}\n\treturn lazyIdx\n}\n')]),
 ]
+MUTANTS += [
+    dict(name='c19-equiv-parallel-decode', props=['C19', 'C04'], expect='silent',
+         desc='CORRECT edit: Decode filters the second half of the paths in a goroutine of its own and joins (no shared writes); the scheduler must let the foreign goroutine run free - must stay silent',
+         edits=[('bmtree/decode.go', '\tfor _, p := range paths {\n\t\tidx := PathToIndex(bitmapSize, p)\n\n\t\twordI := idx >> 6\n\n\t\tif int32(len(bm)) > wordI && bm[wordI]&(1<<uint(idx&63)) != 0 {\n\t\t\trst = append(rst, p)\n\t\t}\n\t}\n\treturn rst',
+                 '\tfilter := func(ps []uint64) []uint64 {\n\t\tout := make([]uint64, 0)\n\t\tfor _, p := range ps {\n\t\t\tidx := PathToIndex(bitmapSize, p)\n\t\t\twordI := idx >> 6\n\t\t\tif int32(len(bm)) > wordI && bm[wordI]&(1<<uint(idx&63)) != 0 {\n\t\t\t\tout = append(out, p)\n\t\t\t}\n\t\t}\n\t\treturn out\n\t}\n\thalf := len(paths) / 2\n\tdone := make(chan []uint64)\n\tgo func() { done <- filter(paths[half:]) }()\n\trst = append(rst, filter(paths[:half])...)\n\trst = append(rst, <-done...)\n\treturn rst')]),
+]
